@@ -264,6 +264,11 @@ func doltCommit(ctx *sql.Context,
 			if err != nil {
 				return nil, nil, err
 			}
+			if hasConflicts, err := doltdb.HasConflicts(ctx, result.Root); err != nil {
+				return nil, nil, err
+			} else if hasConflicts {
+				return nil, nil, tx.rollbackAndErr(ctx, retryTransactionError(""))
+			}
 			pending.Roots.Staged = result.Root
 
 			// We also need to update the working set to reflect the new staged root value
@@ -666,6 +671,14 @@ func (tx *DoltTransaction) validateWorkingSetForCommit(ctx *sql.Context, working
 	hasConstraintViolations, err := doltdb.HasConstraintViolations(ctx, workingRoot)
 	if err != nil {
 		return err
+	}
+	if isFf == notFfMerge && !hasDataConflicts {
+		// mergeRoots merges the staged root as well. A conflict recorded there keeps the other transaction's row in
+		// the staged root (and in a dolt commit made from it), so it is as unacceptable as one in the working root.
+		hasDataConflicts, err = doltdb.HasConflicts(ctx, workingSet.StagedRoot())
+		if err != nil {
+			return err
+		}
 	}
 
 	if hasDataConflicts || hasSchemaConflicts {
